@@ -32,6 +32,7 @@ var (
 	fOffset   = flag.Int64("offset", 0, "worker: byte offset into the shard file")
 	fCount    = flag.Int("count", -1, "worker: number of inputs to run (-1 = to the end)")
 	fDeadline = flag.Duration("deadline", 5*time.Second, "worker: per-request deadline")
+	fShared   = flag.Bool("shared", false, "worker: shared-batch mode (one insert service per table, 250 ms flush interval, the follow-up push waits in the batch)")
 	fStandby  = flag.Bool("standby", false, "worker: wait for the assignment (file, offset, count, deadline) on stdin after warming up")
 )
 
@@ -85,6 +86,7 @@ type proc struct {
 
 type pool struct {
 	self, scratch string
+	extraArgs     string
 	vlimitKB      int
 	ready         chan *proc
 	stop          chan struct{}
@@ -93,8 +95,8 @@ type pool struct {
 	wg            sync.WaitGroup
 }
 
-func newPool(self, scratch string, vlimitKB, spares, starters int) *pool {
-	pl := &pool{self: self, scratch: scratch, vlimitKB: vlimitKB, ready: make(chan *proc, spares), stop: make(chan struct{})}
+func newPool(self, scratch string, vlimitKB, spares, starters int, extraArgs string) *pool {
+	pl := &pool{self: self, scratch: scratch, vlimitKB: vlimitKB, extraArgs: extraArgs, ready: make(chan *proc, spares), stop: make(chan struct{})}
 	for i := 0; i < starters; i++ {
 		pl.wg.Add(1)
 		go func() {
@@ -168,7 +170,7 @@ func (pl *pool) spawn() *proc {
 		return p
 	}
 	// `ulimit -v` caps the address space of the worker; fd 3 is the journal, stdin carries the assignment
-	cmd := exec.Command("/bin/sh", "-c", fmt.Sprintf("ulimit -v %d; exec \"$0\" -worker -standby", pl.vlimitKB), pl.self)
+	cmd := exec.Command("/bin/sh", "-c", fmt.Sprintf("ulimit -v %d; exec \"$0\" -worker -standby%s", pl.vlimitKB, pl.extraArgs), pl.self)
 	cmd.Stdin, cmd.Stdout, cmd.Stderr = sr, lf, lf
 	cmd.ExtraFiles = []*os.File{pw}
 	cmd.Env = append(os.Environ(), "GOMAXPROCS=2", "GOTRACEBACK=all", "VERIF_C05_JOURNAL_FD=3")
@@ -395,7 +397,7 @@ func token(s string) string {
 func main() {
 	if len(os.Args) > 1 && os.Args[1] == "-worker" {
 		flag.Parse()
-		workerMain(*fFile, *fOffset, *fCount, *fDeadline, *fStandby)
+		workerMain(*fFile, *fOffset, *fCount, *fDeadline, *fStandby, *fShared)
 		return
 	}
 	_ = fWorker // the parent's flags (--tier, --replay) are registered and parsed by ev.Start
@@ -432,6 +434,9 @@ func main() {
 	}
 
 	inputs := Generate(genOpts{Thorough: r.Thorough()})
+	nMain := len(inputs)
+	// size classes (threshold-crossing valid bodies), run in shared-batch workers
+	inputs = append(inputs, GenerateSizes(genOpts{Thorough: r.Thorough()}, nMain)...)
 	byID := map[int]*Input{}
 	for i := range inputs {
 		byID[inputs[i].ID] = &inputs[i]
@@ -450,13 +455,15 @@ func main() {
 	}
 
 	// ---- shard files (round-robin, rotated by VERIF_SEED)
-	shards := make([][]shardItem, nw)
-	files := make([]string, nw)
+	const ks = 4 // shared-batch shards (indexes nw .. nw+ks-1)
+	nsh := nw + ks
+	shards := make([][]shardItem, nsh)
+	files := make([]string, nsh)
 	{
-		ws := make([]*bufio.Writer, nw)
-		fs := make([]*os.File, nw)
-		offs := make([]int64, nw)
-		for k := 0; k < nw; k++ {
+		ws := make([]*bufio.Writer, nsh)
+		fs := make([]*os.File, nsh)
+		offs := make([]int64, nsh)
+		for k := 0; k < nsh; k++ {
 			files[k] = filepath.Join(scratch, fmt.Sprintf("shard-%02d.jsonl", k))
 			f, err := os.Create(files[k])
 			if err != nil {
@@ -469,13 +476,16 @@ func main() {
 			if k < 0 {
 				k += nw
 			}
+			if inputs[i].Gen == "size" {
+				k = nw + i%ks
+			}
 			b, _ := json.Marshal(&inputs[i])
 			b = append(b, '\n')
 			shards[k] = append(shards[k], shardItem{inputs[i].ID, offs[k]})
 			ws[k].Write(b)
 			offs[k] += int64(len(b))
 		}
-		for k := 0; k < nw; k++ {
+		for k := 0; k < nsh; k++ {
 			ws[k].Flush()
 			fs[k].Close()
 		}
@@ -491,7 +501,8 @@ func main() {
 	unconfirmed := map[string]int{} // class -> further first-pass suspects of an already confirmed class (not re-run)
 	seedFail := map[string]string{} // family -> what happened to its valid seed during a worker's warm-up
 	soloSem := make(chan struct{}, nw)
-	pl := newPool(self, scratch, vlimitKB, nw, nw/2+1)
+	pl := newPool(self, scratch, vlimitKB, nw, nw/2+1, "")
+	plShared := newPool(self, scratch, vlimitKB, ks, 2, " -shared")
 	stopAt = r.Deadline
 
 	solo := func(in *Input, tag string) *workerRun {
@@ -501,11 +512,14 @@ func main() {
 		b, _ := json.Marshal(in)
 		os.WriteFile(f, append(b, '\n'), 0o644)
 		defer os.Remove(f)
+		if in.Gen == "size" {
+			return runWorker(plShared, f, 0, 1, deadline, noProgress)
+		}
 		return runWorker(pl, f, 0, 1, deadline, noProgress)
 	}
 
 	var wg sync.WaitGroup
-	for k := 0; k < nw; k++ {
+	for k := 0; k < nsh; k++ {
 		wg.Add(1)
 		go func(k int) {
 			defer wg.Done()
@@ -517,7 +531,11 @@ func main() {
 					return
 				}
 				gen++
-				wr := runWorker(pl, files[k], shards[k][pos].Offset, -1, firstPass, noProgress)
+				shPool, shDeadline := pl, firstPass
+				if k >= nw {
+					shPool, shDeadline = plShared, deadline // the flush interval of shared-batch workers is 250 ms
+				}
+				wr := runWorker(shPool, files[k], shards[k][pos].Offset, -1, shDeadline, noProgress)
 				mu.Lock()
 				if routes == nil && wr.Routes != nil {
 					routes = wr.Routes
@@ -671,6 +689,7 @@ func main() {
 	}
 	r.Extra["goroutine_leak_suspects_not_reproduced_in_3_solo_reruns"] = leaksDropped
 	pl.close()
+	plShared.close()
 	if len(seedFail) > 0 {
 		// the ingest side does not even serve a valid push any more: every worker fails the same way during warm-up
 		for fam, what := range seedFail {
@@ -711,6 +730,16 @@ func main() {
 	// ---- judge
 	judgeAll(r, inputs, results, culprits)
 	r.Extra["inputs_generated"] = len(inputs)
+	nShared, nSize := 0, 0
+	for id, res := range results {
+		if id >= nMain {
+			nSize++
+			if res.Shared {
+				nShared++
+			}
+		}
+	}
+	r.Extra["size_class_inputs"] = map[string]int{"generated": len(inputs) - nMain, "run": nSize, "shared_one_block_with_the_other_client": nShared}
 	nUnconf := 0
 	for _, v := range unconfirmed {
 		nUnconf += v
@@ -850,7 +879,9 @@ func judgeAll(r *ev.Run, inputs []Input, results map[int]Result, culprits []culp
 			r.Transitions++
 			r.TracesValidated++
 			fam := followFamily(in)
-			if res.FollowUp != familyOK[fam] {
+			if res.SharedMode && res.FollowUp != familyOK[fam] {
+				violate(r, fmt.Sprintf("other_client_in_same_batch_answered_%d:%s", res.FollowUp, shape(in)), describe(in)+fmt.Sprintf(": another client's valid %s push that was waiting in the same insert batch was answered %d instead of %d (blocks: %v)", fam, res.FollowUp, familyOK[fam], res.Blocks), in, res)
+			} else if res.FollowUp != familyOK[fam] {
 				violate(r, fmt.Sprintf("followup_push_answered_%d:%s", res.FollowUp, shape(in)), describe(in)+fmt.Sprintf(": the next client's valid %s push was answered %d instead of %d", fam, res.FollowUp, familyOK[fam]), in, res)
 			} else if !res.FollowSeen {
 				violate(r, "followup_rows_never_inserted:"+shape(in), describe(in)+": the next client's valid push was acknowledged but its rows never reached ClickHouse", in, res)
@@ -900,7 +931,11 @@ func replay(r *ev.Run, self, scratch string, deadline, noProgress time.Duration,
 	f := filepath.Join(scratch, "replay.jsonl")
 	lb, _ := json.Marshal(&in)
 	os.WriteFile(f, append(lb, '\n'), 0o644)
-	pl := newPool(self, scratch, vlimitKB, 1, 1)
+	extra := ""
+	if in.Gen == "size" {
+		extra = " -shared"
+	}
+	pl := newPool(self, scratch, vlimitKB, 1, 1, extra)
 	defer pl.close()
 	wr := runWorker(pl, f, 0, 1, deadline, noProgress)
 	if wr.Kind == "seedfail" {
